@@ -67,10 +67,13 @@ class C13(Harness):
         holder = self.__dict__.setdefault("_hold", {})
         if ck in ("deseason", "conditional"):
             def seasonal_decompose(z, model=None, period=None, filt=None, two_sided=True, extrapolate_trend=0):
+                # an exactly periodic world: the seasonal component of a time point is a function of the time point
+                # (sigma[(t - start of the training series) mod sp]), whichever stretch is decomposed
                 W = holder[kind]["W"]
                 sig = holder[kind]["sigma"]
                 n = len(z)
-                vals = [sig[i % len(sig)] for i in range(n)]
+                off = z.index[0] - holder[kind]["s0"]
+                vals = [sig[int((off + i) % len(sig))] for i in range(n)]
                 return types.SimpleNamespace(seasonal=W.pd.Series(vals, index=z.index))
 
             ov["statsmodels.tsa.seasonal"] = types.SimpleNamespace(seasonal_decompose=seasonal_decompose)
@@ -133,7 +136,7 @@ class C13(Harness):
                 inp["with_update"] = bool(ctx.fresh_bool("with_update"))
                 if inp["with_update"]:
                     inp["e"] = ctx.fresh_int("e")
-                    inp["u"] = fresh_reals(ctx, "u", 2)
+                    inp["u"] = fresh_reals(ctx, "u", 2 if bool(ctx.fresh_bool("short_update")) else 2 * sp)
                     inp["update_params"] = bool(ctx.fresh_bool("update_params"))
             else:
                 inp["is_seasonal"] = bool(ctx.fresh_bool("is_seasonal"))
@@ -160,6 +163,7 @@ class C13(Harness):
                 inp["lam"] = ctx.fresh_real("lam")
             if k == "passthrough":
                 inp["passthrough"] = bool(ctx.fresh_bool("passthrough"))
+                inp["reused"] = bool(ctx.fresh_bool("reused"))  # the same object was fitted before with the opposite setting
         elif k == "hampel":
             n = cell["n"]
             inp["z"] = fresh_reals(ctx, "z", n)
@@ -188,7 +192,7 @@ class C13(Harness):
         k = cell["kind"]
         s0 = inp["s0"]
         hold = self.__dict__.setdefault("_hold", {})
-        hold[W.kind] = {"W": W, "sigma": inp.get("sigma"), "lam": inp.get("lam")}
+        hold[W.kind] = {"W": W, "sigma": inp.get("sigma"), "lam": inp.get("lam"), "s0": inp["s0"]}
         log = []
 
         def ser(vals, start):
@@ -283,6 +287,10 @@ class C13(Harness):
             T, _ = make_transformer(W, log)
             OP = W.load("sktime.transformations.series.compose").OptionalPassthrough
             t, t2 = OP(T(tag=1), passthrough=inp["passthrough"]), OP(T(tag=1), passthrough=inp["passthrough"])
+            if inp.get("reused"):
+                t.set_params(passthrough=not inp["passthrough"])
+                t.fit(ytr)
+                t.set_params(passthrough=inp["passthrough"])
             t.fit(ytr)
             out["ft"] = pack(t2.fit_transform(ytr))
             out["tt"] = pack(t.transform(ytr))
